@@ -11,7 +11,7 @@ pub fn meta() -> Meta {
     Meta {
         id: "C18",
         level: "exploration",
-        rule: "planted-indel families through `ska build` + `ska lo` (CLI, --threads 1..4 chosen per case, hash seeds owned by the shim, -m in {0, 0.1, 0.2, 0.5} and one of five -d / -n settings chosen per case — no sample lacks a locus, so none of them may suppress a record): base sequences whose (k-1)-mers are unique on both strands; k in {11,15,21,31}; 1..3 indels exactly 4k apart; lengths 1..10 complete for a single indel and {1,2,k/2,10} for several; the segment is present in the carriers and absent in the others, so every carrier set (every non-trivial subset for n=3,4,5; single/half/all-but-one for n=6,8) covers both polarities (insertion vs deletion relative to the majority); orientations all-forward / alternating. Oracle for EVERY record of every run: before+REF+after (or its reverse complement) is a substring of exactly the samples genotyped 0 and before+ALT+after of exactly those genotyped 1 ('-' = empty allele; 0/1 counts for both), nobody is genotyped for an allele they lack. For the planted families additionally: every record corresponds to one planted indel with its carriers, no indel is reported twice, and the recall is >= 90% over the whole enumerated family and over every sub-family with at least 16 distinct planted positions: each k, each class {single indel, several indels, indel that can be slid by exactly 1-2 positions, by exactly 3-5 positions = homopolymer run / tandem copies, up to three positions found in the base sequence for each (length, slide) pair of a fixed list}, and k x slidable class; counts and misses are reported. A further class puts twin k-mers on the indel branch (U a V U b V with the planted segment across the junction, five base pairs x three lengths: the carriers alone hold both windows and store one ambiguity code for U.V). Every (k, length) cell on its own: lengths 1..10 at sixteen positions each, three runs per position, 90% recall per cell. A class next to a sequence end: exactly k-1, k and k+2 bases between the planted segment and the start / the end of a 6k-base sequence, lengths 1, 3, k/2. Cases whose derived samples break (k-1)-mer uniqueness are judged for soundness only. Every planted layout is run once more through the dev-profile build of the same source (arithmetic overflow checks on): same verdict required, a panic there is an overflow the release build silently wraps.".into(),
+        rule: "planted-indel families through `ska build` + `ska lo` (CLI, --threads 1..4 chosen per case, hash seeds owned by the shim, -m in {0, 0.1, 0.2, 0.5} and one of five -d / -n settings chosen per case — no sample lacks a locus, so none of them may suppress a record): base sequences whose (k-1)-mers are unique on both strands; k in {11,15,21,31}; 1..3 indels exactly 4k apart; lengths 1..10 complete for a single indel and {1,2,k/2,10} for several; the segment is present in the carriers and absent in the others, so every carrier set (every non-trivial subset for n=3,4,5; single/half/all-but-one for n=6,8) covers both polarities (insertion vs deletion relative to the majority); orientations all-forward / alternating. Oracle for EVERY record of every run: before+REF+after (or its reverse complement) is a substring of exactly the samples genotyped 0 and before+ALT+after of exactly those genotyped 1 ('-' = empty allele; 0/1 counts for both), nobody is genotyped for an allele they lack. For the planted families additionally: every record corresponds to one planted indel with its carriers, no indel is reported twice, and the recall is >= 90% over the whole enumerated family and over every sub-family with at least 16 distinct planted positions: each k, each class {single indel, several indels, indel that can be slid by exactly 1-2 positions, by exactly 3-5 positions = homopolymer run / tandem copies, up to three positions found in the base sequence for each (length, slide) pair of a fixed list}, and k x slidable class; counts and misses are reported. A further class puts twin k-mers on the indel branch (U a V U b V with the planted segment across the junction, five base pairs x three lengths: the carriers alone hold both windows and store one ambiguity code for U.V). Two and three indels with the same alleles and the same carriers (the same one or two letters lost at places 4k apart; records that differ in their flanks only). Every (k, length) cell on its own: lengths 1..10 at sixteen positions each, three runs per position, 90% recall per cell. A class next to a sequence end: exactly k-1, k and k+2 bases between the planted segment and the start / the end of a 6k-base sequence, lengths 1, 3, k/2. Cases whose derived samples break (k-1)-mer uniqueness are judged for soundness only. Every planted layout is run once more through the dev-profile build of the same source (arithmetic overflow checks on): same verdict required, a panic there is an overflow the release build silently wraps.".into(),
         assumptions: vec!["release-profile arithmetic: a debug build panics on a usize underflow in read_graph.rs for short deletion paths (DESIGN §2)".into(), "hash seeds: declared finite set".into()],
         exhaustive_when_uncapped: true,
     }
@@ -111,7 +111,16 @@ pub fn judge_record(c: &IndelCase, r: &lo::IndelRecord) -> Result<Option<usize>,
     let longer_is_ref = allele(&r.ref_allele).len() > allele(&r.alt_allele).len();
     let with_segment: Vec<bool> = (0..n).map(|i| if longer_is_ref { r.gts[i] == "0" } else { r.gts[i] == "1" }).collect();
     let dl = allele(&r.ref_allele).len().abs_diff(allele(&r.alt_allele).len());
-    Ok(c.segs.iter().enumerate().position(|(si, (_, len))| *len == dl && c.present[si] == with_segment))
+    let cands: Vec<usize> = c.segs.iter().enumerate().filter(|(si, (_, len))| *len == dl && c.present[*si] == with_segment).map(|(si, _)| si).collect();
+    if cands.len() <= 1 {
+        return Ok(cands.first().copied());
+    }
+    // several planted indels of this length with these carriers: the record's flanks say which one it is — the longer
+    // allele with its flanks lies in the base sequence (all segments present) across exactly one of them
+    let longer = if longer_is_ref { &refseq } else { &altseq };
+    let find = |hay: &[u8], needle: &[u8]| -> Option<usize> { if needle.is_empty() || hay.len() < needle.len() { None } else { (0..=hay.len() - needle.len()).find(|i| &hay[*i..*i + needle.len()] == needle) } };
+    let span = find(&c.base, longer).or_else(|| find(&c.base, &rc_str(longer))).map(|o| (o, o + longer.len()));
+    Ok(span.and_then(|(a, b)| cands.iter().copied().find(|si| c.segs[*si].0 >= a && c.segs[*si].0 + c.segs[*si].1 <= b)))
 }
 
 /// returns (planted indels, reported-and-matched indels) for recall; Err = violation
@@ -328,6 +337,69 @@ pub fn run(ctx: &Ctx, rep: &mut Report) {
                                 Err(e) if e.starts_with("MACHINERY") => rep.machinery(e),
                                 Err(e) => rep.violate(format!("twin k={k} {}{} half={half} present={:?}", a as char, b as char, c.present), format!("k={k} n={n} twin k-mers {}{} around an indel of {} bases: {e}", a as char, b as char, 2 * half), c.json(ctx.seed)),
                             }
+                        }
+                    }
+                }
+            }
+        }
+        // several indels with the SAME alleles and the SAME carriers (the same base, or the same two bases, lost at three
+        // places 4k apart): three records that differ only in their flanks
+        for len in [1usize, 2] {
+            idx += 1;
+            if !ctx.mine(idx) {
+                continue;
+            }
+            // positions near 4k, 8k, 12k holding the same `len` letters, none of them slidable
+            let fixed = |p: usize| (1..=len).all(|i| base[p - i] != base[p + len - i]) && base[p] != base[p + len];
+            let mut found: Option<Vec<usize>> = None;
+            'search: for p1 in 3 * k..5 * k {
+                if !fixed(p1) {
+                    continue;
+                }
+                let same = |lo: usize, hi: usize| (lo..hi).find(|q| fixed(*q) && base[*q..*q + len] == base[p1..p1 + len]);
+                if let (Some(p2), Some(p3)) = (same(p1 + 4 * k, p1 + 6 * k), same(p1 + 8 * k, p1 + 10 * k)) {
+                    found = Some(vec![p1, p2, p3]);
+                    break 'search;
+                }
+            }
+            let Some(ps) = found else {
+                rep.corner("no_three_places_with_the_same_letters");
+                continue;
+            };
+            for n in [3usize, 4, 5] {
+                let cs = carrier_sets(n, false);
+                for (ci, carriers) in cs.iter().enumerate() {
+                    if n == 5 && ci % 4 != 0 {
+                        continue;
+                    }
+                    for m in [2usize, 3] {
+                        let c = IndelCase { k, base: base.clone(), segs: ps[..m].iter().map(|p| (*p, len)).collect(), present: vec![carriers.clone(); m], flip: (0..n).map(|i| ci % 2 == 1 && i % 2 == 1).collect() };
+                        rep.evaluations += 1;
+                        match check(&c, ctx.seed, &dir) {
+                            Ok((planted, found)) => {
+                                if planted > 0 {
+                                    rep.nontrivial += 1;
+                                    planted_total += planted as u64;
+                                    found_total += found as u64;
+                                    rep.corner("indels_with_identical_alleles_and_carriers");
+                                    for sub in ["all k, identical alleles and carriers".to_string(), format!("k={k}, all classes")] {
+                                        let (kp, kf) = (format!("planted[{sub}]"), format!("reported[{sub}]"));
+                                        let x = rep.extra.get(&kp).and_then(|v| v.as_u64()).unwrap_or(0);
+                                        let y = rep.extra.get(&kf).and_then(|v| v.as_u64()).unwrap_or(0);
+                                        rep.extra.insert(kp, json!(x + planted as u64));
+                                        rep.extra.insert(kf, json!(y + found as u64));
+                                    }
+                                    if found < planted {
+                                        let km = format!("missed[k={k} segs={:?} same carriers]", c.segs);
+                                        let a = rep.extra.get(&km).and_then(|v| v.as_u64()).unwrap_or(0);
+                                        rep.extra.insert(km, json!(a + (planted - found) as u64));
+                                    }
+                                } else {
+                                    rep.corner("premise_not_met_(soundness_only)");
+                                }
+                            }
+                            Err(e) if e.starts_with("MACHINERY") => rep.machinery(e),
+                            Err(e) => rep.violate(format!("identical k={k} len={len} m={m} present={:?}", c.present), format!("k={k} n={n} {m} indels of the same {len} letter(s) with the same carriers at {:?}: {e}", &ps[..m]), c.json(ctx.seed)),
                         }
                     }
                 }
